@@ -20,7 +20,7 @@ func init() {
 	Registry["C15"] = Spec{
 		Run: runC15, Workers: 16, GOMAXPROCS: 4,
 		QuickTimeout: 5 * time.Minute, ThoroughTimeout: 30 * time.Minute,
-		QuickFloor: 300, ThoroughFloor: 5000,
+		QuickFloor: 2000, ThoroughFloor: 40000,
 		RequiredCounters: []string{"register_histories_linearizable", "swap_increments_conserved", "waiter_returns_judged", "write_between_sample_and_block", "gated_templates", "quiescent_judgements", "CContainerBlock"},
 		Rule: "cases are (a) short concurrent Get/Set/Swap histories checked by porcupine against a register model that includes the custom-equality no-op rule, (b) N x M concurrent SwapValue(+1) conservation runs, " +
 			"(c) 1-6 writers of unique values against 1-8 waiters of the four kinds with cancellations and error-channel deliveries racing the writes, judged per return and at quiescence, (d) a gated template parking the waiter between sample and select while the satisfying write lands; " +
@@ -32,17 +32,17 @@ func init() {
 func runC15(w *mon.Worker) {
 	mon.SetMaxSleep(120 * time.Microsecond)
 	mon.SetProb(0.25, verifhook.BcastEnter, verifhook.BcastExit, verifhook.CContainerBlock)
-	for i := 0; i < w.Share(w.Scale(2400, 80000)); i++ {
+	for i := 0; i < w.Share(w.Scale(8000, 200000)); i++ {
 		w.Case("register-history", nil, ccRegisterCase)
 	}
-	for i := 0; i < w.Share(w.Scale(64, 2000)); i++ {
+	for i := 0; i < w.Share(w.Scale(128, 4000)); i++ {
 		w.Case("swap-conservation", nil, ccSwapConservationCase)
 	}
-	for i := 0; i < w.Share(w.Scale(3200, 100000)); i++ {
+	for i := 0; i < w.Share(w.Scale(12000, 300000)); i++ {
 		w.Case("waiters", nil, ccWaitersCase)
 	}
 	mon.ClearProb()
-	for i := 0; i < w.Share(w.Scale(480, 10000)); i++ {
+	for i := 0; i < w.Share(w.Scale(1600, 30000)); i++ {
 		w.Case("gated", nil, ccGatedCase)
 	}
 }
